@@ -516,7 +516,13 @@ macro_rules! op_assign {
                 let shape = ixes.shape();
                 fxn_input.push(ixes);
                 match shape[..] {
-                  [1,1] => plan.borrow_mut().push(MatrixAssignScalar{}.compile(&fxn_input)?),
+                  [1,1] => {
+                    // A scalar index is a one-element index vector for the read-modify-write kernels;
+                    // the plain MatrixAssignScalar compiler would overwrite the element instead of updating it.
+                    let ix = fxn_input.pop().unwrap();
+                    fxn_input.push(Value::MatrixIndex(Matrix::DVector(Ref::new(nalgebra::DVector::from_vec(vec![ix.as_usize()?])))));
+                    plan.borrow_mut().push([<$op AssignRange>]{}.compile(&fxn_input)?)
+                  },
                   [1,n] => plan.borrow_mut().push([<$op AssignRange>]{}.compile(&fxn_input)?),
                   [n,1] => plan.borrow_mut().push([<$op AssignRange>]{}.compile(&fxn_input)?),
                   _ => todo!(),
@@ -526,10 +532,15 @@ macro_rules! op_assign {
                 fxn_input.push(source.clone());
                 let ix = subscript_formula_ix(&subs[0], env, p)?;
                 let shape = ix.shape();
-                fxn_input.push(ix);
+                if shape[..] == [1,1] {
+                  // same as above: update row `ix` through the range kernel instead of overwriting it
+                  fxn_input.push(Value::MatrixIndex(Matrix::DVector(Ref::new(nalgebra::DVector::from_vec(vec![ix.as_usize()?])))));
+                } else {
+                  fxn_input.push(ix);
+                }
                 fxn_input.push(Value::IndexAll);
                 match shape[..] {
-                  [1,1] => plan.borrow_mut().push(MatrixAssignScalarAll{}.compile(&fxn_input)?),
+                  [1,1] => plan.borrow_mut().push([<$op AssignRangeAll>]{}.compile(&fxn_input)?),
                   [1,n] => plan.borrow_mut().push([<$op AssignRangeAll>]{}.compile(&fxn_input)?),
                   [n,1] => plan.borrow_mut().push([<$op AssignRangeAll>]{}.compile(&fxn_input)?),
                   _ => todo!(),
